@@ -129,6 +129,12 @@ class Walker:
                 if self.pure:
                     self.err(s, "raising statement atom in a pure function")
                 out = out.replace("@@H@@", self.raise_term(h))
+            for m in re.findall(r"@@CATCHES:(\w+)@@", out):
+                # does the innermost enclosing try catch class m?  (classes outside the model's enum, e.g. ImportError)
+                caught = h is not None and (h[0] is None or m in h[0] or m in getattr(self, "extra_catch", {}).get(id(h), ()))
+                out = out.replace(f"@@CATCHES:{m}@@", "true" if caught else "false")
+            if "@@HANDLER@@" in out:
+                out = out.replace("@@HANDLER@@", h[1] if h is not None else "Raise KeyError")
             if "@@K@@" in out:
                 return out.replace("@@K@@", "(" + nxt() + ")")
             return out + "\n" + nxt()
@@ -191,7 +197,12 @@ class Walker:
                         self.err(s, f"except {nme}: unknown exception class")
                     catch.add(nme)
             handler_term = self.stmts(list(hd.body) + rest, k, h, loop_k)
-            return self.stmts(list(s.body), nxt(), (catch, handler_term, h), loop_k)
+            hnew = (catch, handler_term, h)
+            if not hasattr(self, "extra_catch"):
+                self.extra_catch = {}
+            self.extra_catch[id(hnew)] = {nme for nme in names if nme not in EXN}
+            self._keep = getattr(self, "_keep", []) + [hnew]
+            return self.stmts(list(s.body), nxt(), hnew, loop_k)
         if isinstance(s, ast.For):
             if s.orelse:
                 self.err(s, "for/else")
